@@ -373,7 +373,7 @@ pub fn gen_build(run: &mut Run, seed: u64, thorough: bool) {
                         for mods in &modsets {
                             let name = format!("Noise_{p}{}_{dh}_ChaChaPoly_SHA256", mods_suffix(mods));
                             let psks: Vec<(u8, Vec<u8>)> = if r.chance(1, 2) { mods.iter().filter(|n| **n < 10).map(|n| (*n, r.bytes(32))).collect() } else { vec![] };
-                            let spec = BuildSpec {
+                            let spec = BuildSpec { alias: None,
                                 name: name.clone(),
                                 initiator,
                                 resolver: resolver.into(),
@@ -420,7 +420,7 @@ pub fn gen_build(run: &mut Run, seed: u64, thorough: bool) {
             for which in 0..3 {
                 for len in [0usize, 1, 31, 32, 33, pub_len - 1, pub_len, pub_len + 1, 56, 57, 64, 65, 66, 100, 200] {
                     let name = format!("Noise_{kpat}_{dh}_AESGCM_BLAKE2b");
-                    let mut spec = BuildSpec {
+                    let mut spec = BuildSpec { alias: None,
                         name: name.clone(),
                         initiator: r.chance(1, 2),
                         resolver: "toy".into(),
@@ -449,7 +449,7 @@ pub fn gen_build(run: &mut Run, seed: u64, thorough: bool) {
         // known finding (C10): P-256 private keys outside [1, n-1] panic in Dh::set (derive_pubkey().unwrap())
         if *p == "NN" {
             for (what, key) in [("all-zero", vec![0u8; 32]), ("all-0xff", vec![0xffu8; 32])] {
-                let spec = BuildSpec {
+                let spec = BuildSpec { alias: None,
                     name: "Noise_NN_P256_ChaChaPoly_SHA256".into(),
                     initiator: true,
                     resolver: "default".into(),
@@ -472,7 +472,7 @@ pub fn gen_build(run: &mut Run, seed: u64, thorough: bool) {
         // resolver availability
         for res in ["toy-norng", "toy-nodh", "toy-nocipher", "toy-nohash", "none", "fb(none,toy)", "fb(toy-nodh,toy-nohash)", "fb(toy-nodh,toy-nodh)"] {
             let name = format!("Noise_{p}_25519_AESGCM_SHA512");
-            let spec = BuildSpec {
+            let spec = BuildSpec { alias: None,
                 name: name.clone(),
                 initiator: r.chance(1, 2),
                 resolver: res.into(),
@@ -592,7 +592,7 @@ fn quick_pair(sc: &mut Sc, name: &str, res_i: &str, res_r: &str, seed: u64, stat
     let s_r = r.bytes(32);
     let (Some(pub_i), Some(pub_r)) = (pub_of(res_i, dh, &s_i), pub_of(res_r, dh, &s_r)) else { return false };
     let psk: Vec<(u8, Vec<u8>)> = psks.iter().map(|n| (*n, vec![0x77 ^ *n; 32])).collect();
-    let mk = |initiator: bool| BuildSpec {
+    let mk = |initiator: bool| BuildSpec { alias: None,
         name: name.to_string(),
         initiator,
         resolver: if initiator { res_i.into() } else { res_r.into() },
@@ -976,9 +976,37 @@ pub fn run_transport(cfg: &TransportCfg, sc: &mut Sc) {
         } else if action < 94 {
             // explicit receiving nonce
             let dd = &mut dirs[d];
-            let n = match r.below(6) {
+            let choice = r.below(6);
+            if choice <= 1 && !late && !(oneway && d == 1) {
+                // a detour to the end of the range and back: the refused calls there (Exhausted) must leave no trace
+                let prev = dd.recv_n;
+                sc.ex.set_recv_nonce(rd, u64::MAX);
+                let o = sc.ex.t_read(rd, &r.bytes(32), 32);
+                sc.check_panic(&o, "t_read at 2^64-1");
+                if o.err() != Some("State(Exhausted)") {
+                    sc.viol("C09", format!("{}: read at nonce 2^64-1 gave {o:?}", cfg.name));
+                }
+                if choice == 1 {
+                    let o = sc.ex.t_read(rd, &r.bytes(16), 0);
+                    sc.check_panic(&o, "t_read at 2^64-1");
+                }
+                sc.ex.set_recv_nonce(rd, prev);
+                let prev_s = dd.send_n;
+                if prev_s != u64::MAX && r.chance(1, 2) {
+                    sc.ex.set_send_nonce(w, u64::MAX);
+                    let o = sc.ex.t_write(w, b"never sent", 64);
+                    sc.check_panic(&o, "t_write at 2^64-1");
+                    if o.err() != Some("State(Exhausted)") {
+                        sc.viol("C09", format!("{}: write at nonce 2^64-1 gave {o:?}", cfg.name));
+                    }
+                    sc.ex.set_send_nonce(w, prev_s);
+                }
+                sc.count("t.exhaustion_detour");
+            }
+            let n = match choice {
                 0 if late => u64::MAX,
                 1 if late => u64::MAX - 1,
+                0 | 1 => dd.recv_n,
                 2 => 0,
                 3 if !dd.sent.is_empty() => r.pick(&dd.sent).0,
                 4 => dd.recv_n.wrapping_sub(r.below(4) as u64).min(u64::MAX - 3) % (dd.send_n.max(1) + 8),
@@ -1021,6 +1049,30 @@ pub fn run_transport(cfg: &TransportCfg, sc: &mut Sc) {
             for e in &sc.ex.last_events.clone() {
                 if matches!(ev2(e), Ev2::DecNonce(u64::MAX)) {
                     sc.viol("C09", format!("{}: decryption attempted under nonce 2^64-1", cfg.name));
+                }
+            }
+            // mostly: back from the end of the range onto a message the sender wrote under the current key (or onto
+            // the sender's next one); the refused read must not have cost the session anything
+            if r.chance(2, 3) {
+                let dd = &mut dirs[d];
+                let back = dd.sent.iter().rev().find(|(_, _, _, key)| *key == dd.recv_key).cloned();
+                match back {
+                    Some((n, m, p, _)) if n != u64::MAX => {
+                        sc.ex.set_recv_nonce(rd, n);
+                        let o = sc.ex.t_read(rd, &m, p.len() + 16);
+                        sc.check_panic(&o, "t_read after the exhaustion error");
+                        if o.bytes() != Some(p.as_slice()) {
+                            sc.viol("C07", format!("{}: after a read refused with Exhausted, set_receiving_nonce({n}) and the genuine message {n} gave {o:?}", cfg.name));
+                            sc.viol("C05", format!("{}: genuine message {n} rejected at receiving nonce {n} (after an Exhausted error)", cfg.name));
+                        }
+                        dd.recv_n = n + 1;
+                    },
+                    _ => {
+                        if dd.send_n != u64::MAX {
+                            sc.ex.set_recv_nonce(rd, dd.send_n);
+                            dd.recv_n = dd.send_n;
+                        }
+                    },
                 }
             }
         }
